@@ -379,11 +379,11 @@ def correspondence(rep, rng, tier):
       # F8: does the recorded LLL answer contain +- the planted row of Props/C08Chain.lean?
       # (statistics only: "LLL returns the planted row" is the one oracle step of the chain)
       if n > 2 and len(a) > 0 and gmpy2.is_prime(n):
-        from corr.c08_chain import planted_in
+        from corr.c08_chain import planted_in, row_stats
         try:
-          pl, _ = planted_in(bias, n, weff, x, ks, mult, basis, bits)
+          pl, pdesc = planted_in(bias, n, weff, x, ks, mult, basis, bits)
         except Exception:  # noqa
-          pl = False
+          pl, pdesc = False, None
         cs = rep.extra.setdefault('chain_statistics', {}).setdefault(
             'solver/%s/%s' % (BIAS_NAMES[bias], 'w=None' if w is None else 'w-given'),
             {'instances': 0, 'key_found': 0, 'planted_row_in_lll_output': 0, 'key_found_other_row': 0,
@@ -393,6 +393,7 @@ def correspondence(rep, rng, tier):
         cs['planted_row_in_lll_output'] += int(pl)
         cs['key_found_other_row'] += int(hit and not pl)
         cs['planted_row_but_key_missing'] += int(pl and not hit)
+        row_stats(cs, pdesc if pl else None)
 
       def fn(a=a, bb=bb, w=w, n=n, bias=bias, basis=basis):
         lll.reduce = lambda lat_: basis
@@ -687,7 +688,8 @@ def correspondence(rep, rng, tier):
           subs = list(hnp._HiddenNumberProblemSubsets(list(a), list(bb), curve, lcg, hnp.SearchStrategy(flags)))
         except Exception:  # noqa
           subs = []
-        pl = False
+        from corr.c08_chain import key_rep, row_stats, short_stats
+        pl, pdesc = False, None
         for (a0, b0, cs_, w_), basis_ in zip(subs, bases):
           et = []
           for ai, bi in zip(a0, b0):
@@ -698,8 +700,13 @@ def correspondence(rep, rng, tier):
           for row in basis_:
             for t in (1, -1):
               rr = [t * v for v in row]
-              if len(rr) == len(tail) + 2 and rr[0] == n_ * w_ + 1 and (rr[1] - x) % n_ == 0 and rr[2:] == tail:
+              # LITERAL row of sandwich_lcg_any / chain_lcg_any: (n*w+1, x', e_t*w), x' a representative of x mod n
+              rep_ = key_rep(rr[1], x % n_, n_) if len(rr) == len(tail) + 2 else None
+              if rep_ is not None and rr[0] == n_ * w_ + 1 and rr[2:] == tail and not pl:
                 pl = True
+                pdesc = dict(rep=rep_, centred=(2 * abs(rr[1]) <= n_), negated=(t == -1))
+                if et and any(et):
+                  pdesc.update(short_stats(n_, w_, len(et), 1, et))
         hit_ = H(x % n_) in r[3:].split(',')
         cs2 = rep.extra.setdefault('chain_statistics', {}).setdefault(
             'solver/lcg/' + fam.split('/')[0],
@@ -710,6 +717,7 @@ def correspondence(rep, rng, tier):
         cs2['planted_row_in_lll_output'] += int(pl)
         cs2['key_found_other_row'] += int(hit_ and not pl)
         cs2['planted_row_but_key_missing'] += int(pl and not hit_)
+        row_stats(cs2, pdesc if pl else None)
     bf.add('hnp.forcurve %s %s %s %s %s %s $%s %s' % (L(a), L(bb), H(int(curve)), cn_s, O(lcg_ids[lcg]),
                                                     H(flags), factory_reg, bases_str(bases)),
            r, tag=fam + ':' + (r[:2] if r.startswith('ok') else r[4:]))
